@@ -510,3 +510,6 @@ def run(rep, program: Program, tier: str) -> None:
     rep.isolate(rule_r5, rep, program, se)
     rep.isolate(rule_r6, rep, program)
     rep.isolate(rule_r7, rep, program)
+    from . import stateproto
+
+    rep.isolate(stateproto.rule, rep, program, tier, PROP, "R8", "memo")
